@@ -262,6 +262,17 @@ class Replayer:
                     problems.append(f"{op} raised {type(exc).__name__}: {exc} instead of {exp_exc.__name__}")
                 if snap_key(snapshot(c_before)) != before:
                     problems.append(f"rejected operation {op} changed the continuum")
+                elif not problems:
+                    # a refusal the caller catches leaves EVERYTHING the model predicts as it was (counts, equality, ...)
+                    problems += [f"after the rejected operation {op}: {p_}" for p_ in compare(c, m)]
+                    try:
+                        avg = float(c.avg_num_annotations_per_annotator) if len(m["ann"]) else None
+                        want_avg = (sum(len(us) for us in m["ann"].values()) / len(m["ann"])) if len(m["ann"]) else None
+                        if avg is not None and abs(avg - want_avg) > 1e-9:
+                            problems.append(f"after the rejected operation {op}: average number of units per annotator "
+                                            f"{avg} but the model has {want_avg}")
+                    except Exception:  # noqa
+                        pass
                 return c, m, problems, {"rejected": True}
             if exc is not None:
                 problems.append(f"{op} raised {type(exc).__name__}: {exc}")
